@@ -18,6 +18,7 @@ from pydiverse.common import (
 from pydiverse.transform._internal.backend.table_impl import (
     TableImpl,
     get_left_right_on,
+    is_hash_join_key,
     split_join_cond,
 )
 from pydiverse.transform._internal.backend.targets import Pandas, Polars, Target
@@ -406,7 +407,7 @@ def compile_ast(
         assert not set(right_name_in_df.keys()) & set(name_in_df.keys())
         name_in_df.update(right_name_in_df)
 
-        eq_predicates = [pred for pred in predicates if pred.op == ops.equal]
+        eq_predicates = [pred for pred in predicates if is_hash_join_key(pred, right_name_in_df.keys())]
         left_on, right_on = get_left_right_on(eq_predicates, name_in_df, right_name_in_df)
 
         # If there are only equality predicates, use normal join. Else use join_where
